@@ -599,6 +599,105 @@ def check_case(case, batch=None):
     return out, {"rejected": False, "compared": ncmp}
 
 
+def cpp_template_probe(task):
+    """Every unary/binary kind the C++ target declares, in float32 and float64, inlined into further inexact arithmetic
+    (k(..)*y + z and k(x*y + z ..)): an operand or result silently promoted to double (unqualified C function, untyped
+    literal) changes the float32 result by double rounding only when two more roundings follow in the same expression.
+    All functions go through one g++ run."""
+    seed = task
+    p = Partial()
+    rng = np.random.Generator(np.random.PCG64([seed, 55]))
+    un = progs.UNARY_REAL + declared("cpp", EXTRA_UNARY)
+    bi = progs.BINARY_REAL + declared("cpp", EXTRA_BINARY)
+    cases = []
+    for T in ("float32", "float64"):
+        syms = [["x", T], ["y", T], ["z", T]]
+        base = [["sym", 0], ["sym", 1], ["sym", 2]]
+        for k in un:
+            cases.append((k, T, {"syms": syms, "nodes": base + [[k, 0], ["multiply", 3, 1], ["add", 4, 2]], "root": 5}))
+            cases.append((k, T, {"syms": syms, "nodes": base + [["multiply", 0, 1], ["add", 3, 2], [k, 4], ["multiply", 5, 1], ["subtract", 6, 2]], "root": 7}))
+        for k in bi:
+            cases.append((k, T, {"syms": syms, "nodes": base + [[k, 0, 1], ["multiply", 3, 2], ["add", 4, 0]], "root": 5}))
+            cases.append((k, T, {"syms": syms, "nodes": base + [["multiply", 0, 1], ["add", 3, 2], [k, 4, 1], ["multiply", 5, 2], ["add", 6, 0]], "root": 7}))
+    # remainder does not compile for floating operands (open finding F-C05-5): kept out of the common translation unit
+    p.merge(_probe_batch([c for c in cases if c[0] != "remainder"], seed, rng, 0))
+    p.merge(_probe_batch([c for c in cases if c[0] == "remainder"], seed, rng, 10000))
+    return p
+
+
+def py_template_probe(task):
+    """the same shapes for the python and numpy targets (no compilation involved)"""
+    seed, target = task
+    p = Partial()
+    rng = np.random.Generator(np.random.PCG64([seed, 56]))
+    un = progs.UNARY_REAL + declared(target, EXTRA_UNARY)
+    bi = progs.BINARY_REAL + declared(target, EXTRA_BINARY)
+    for T in {"python": ("float",), "numpy": ("float16", "float32", "float64")}[target]:
+        syms = [["x", T], ["y", T], ["z", T]]
+        base = [["sym", 0], ["sym", 1], ["sym", 2]]
+        specs = []
+        for k in un:
+            specs.append((k, {"syms": syms, "nodes": base + [[k, 0], ["multiply", 3, 1], ["add", 4, 2]], "root": 5}))
+            specs.append((k, {"syms": syms, "nodes": base + [["multiply", 0, 1], ["add", 3, 2], [k, 4], ["multiply", 5, 1], ["subtract", 6, 2]], "root": 7}))
+        for k in bi:
+            specs.append((k, {"syms": syms, "nodes": base + [[k, 0, 1], ["multiply", 3, 2], ["add", 4, 0]], "root": 5}))
+            specs.append((k, {"syms": syms, "nodes": base + [["multiply", 0, 1], ["add", 3, 2], [k, 4, 1], ["multiply", 5, 2], ["add", 6, 0]], "root": 7}))
+        for k, spec in specs:
+            for debug in ((0, 1) if target == "numpy" else (0,)):
+                case = {"target": target, "spec": spec, "vseed": seed, "refs": {}, "rewrite": False, "debug": debug, "call_from": None}
+                bad, info = check_case(case)
+                if info.get("rejected"):
+                    p.count(1, "template-probe/%s/rejected-by-target" % target)
+                    continue
+                p.count(1, "template-probe/%s/%s" % (target, T))
+                p.label("template-probe/%s/inputs-compared" % target, info.get("compared", 0))
+                if info.get("compared"):
+                    p.nontrivial(("probe", target, k, T, debug, spec["root"]))
+                for cls, what in bad:
+                    p.violation(cls + ("/" + k if "value-differs" in cls else ""), what, case)
+    return p
+
+
+def _probe_batch(cases, seed, rng, offset):
+    p = Partial()
+    b = cppbuild.Batch()
+    built = []
+    for i, (k, T, spec) in enumerate(cases, offset):
+        case = {"target": "cpp", "spec": spec, "vseed": seed, "refs": {}, "rewrite": False, "debug": 0, "call_from": None}
+        g, syms, bad = prepare_case(case)
+        if g is None:
+            p.count(1, "template-probe/cpp/rejected-by-target")
+            continue
+        bad, info = check_program("cpp", g, syms, "fn", rng, what="template probe")
+        if bad is None:
+            p.count(1, "template-probe/cpp/rejected-by-target")
+            continue
+        for cls, what in bad:
+            p.violation(cls, what, case)
+        if bad:
+            continue
+        name = "fn%d" % i
+        b.add(name, info["src"].replace(" fn(", " %s(" % name, 1), [t for _, t in syms], str(g.operands[-1].get_type()))
+        built.append((name, k, T, case, g, syms))
+    b.compile()
+    try:
+        for name, k, T, case, g, syms in built:
+            if name in b.errors:
+                msg = [ln for ln in b.errors[name].splitlines() if "error" in ln]
+                p.violation("cpp/does-not-compile/%s" % k, "template probe: g++ rejects the emitted source: %s" % (msg[0][-220:] if msg else "?"), case)
+                continue
+            bad2, ncmp = compare_values("cpp", g, syms, b, name, rng, 64, "template probe %s/%s" % (k, T))
+            p.count(1, "template-probe/cpp/%s" % T)
+            p.label("template-probe/cpp/inputs-compared", ncmp)
+            if ncmp:
+                p.nontrivial(("probe", k, T, case["spec"]["root"]))
+            for cls, what in bad2:
+                p.violation(cls + "/" + k, what, case)
+    finally:
+        b.close()
+    return p
+
+
 def reduce_cpp_case(case, cls):
     """smallest sub-program (re-rooted at an earlier node, then pruned) that still shows the same violation class"""
     spec = case["spec"]
@@ -690,6 +789,8 @@ def run(ctx):
         for s in range(nsh):
             gtasks.append((ctx.seed, s, int(n * mult) if target != "cpp" else max(8, n // 3), ctx.known, target))
     ctx.pmap(_gen_shard, gtasks)
+    ctx.merge(cpp_template_probe(ctx.seed))
+    ctx.pmap(py_template_probe, [(ctx.seed, "python"), (ctx.seed, "numpy")])
     from harness import fuzz
 
     fuzz.campaign(ctx, "C05", ["python", "numpy"], runs=500 if ctx.quick else 30000, workers=8 if ctx.quick else 16)
